@@ -122,7 +122,7 @@ PROPS = {
         "suites": [("forkable", 3000, 40000)], "props": ["C01"], "level": "proof",
         "projection": proj_forkable, "nontrivial": nt_forkable, "rule": FORKABLE_RULE, "trusted_base": FORKABLE_TB,
         "technique": "Lean 4 theorems on a statement-level model of Forkable.ProcessBlock/ForkDB (invariant by induction over histories, soundness of the ForkDB walks, chain-switch shape, failure simulation) + consumer-discipline monitor (Lean) on the implementation's traces + differential correspondence",
-        "level_text": "Props/C01: history_discipline_consistent — for every history (any length, order, duplicates, gaps, forks, orphans, blocks below the LIB or arriving before their parents) of blocks drawn from one consistent block tree (UOK: ids identify blocks, non-empty ids, heights grow along parent links) whose LIB declarations resolve to stored ancestors (LibHistOK), fed to a forkable that knows its LIB (Inv; init_inv / init_inv2 for an exclusive starting LIB), the delivered events drive a push/pop consumer (New must name the tip or the LIB as parent, Undo must be the tip, Irreversible must be the oldest pending block) without ever failing and leave it exactly on the chain from the LIB to the last block sent. The hypotheses are on the input only; the proof is an induction over the history with the invariants Inv (consumer's chain = path LIB -> last sent block, heights, cache) and Inv2 (every sent stored block has a final, a sent stored, or a gone-for-good parent — which is what makes 'a purged block never comes back' provable). history_discipline_inclusive — the same for a forkable started on an inclusive LIB: the first block delivered is either the starting block itself (New and Irreversible at once, inclusive_root_step) or a block the consumer resting on the starting LIB accepts, and the discipline holds from then on. history_discipline_discovery — the same for a hold-until-LIB forkable that discovers its LIB (the configuration ForkableHub builds): nothing is delivered until a block's declared LIB resolves to a stored ancestor L; that block delivers the chain from L (exclusive) to itself as New and announces L itself (discovery_step / DiscoveryStep give the exact shape, also for a block that is its own LIB), after which the stream follows the discipline as for a known LIB. step_discipline / history_discipline are the same with the state-side hypothesis SentClosed instead of the universe. handler_error_returned_at_once (no hypothesis at all): with a handler failing on call k the handler saw exactly the first k+1 events of the failure-free run and the error is returned. refeed_delivers_nothing / below_lib_dropped: a stored block or a block below the LIB changes nothing. Every hypothesis has a Boolean check with a kernel-checked soundness theorem (stepOKb_sound, uokB_sound, libHistB_sound); a history with a fork, an undo/redo switch, a duplicate, an orphan and two LIB moves is discharged end to end by kernel evaluation, and the driver reports for every run how many steps the theorems cover (thm.* counters). Outside the theorems: LIB discovery without hold-until-LIB, handlers that filter out New/Undo/Irreversible, malformed LIB declarations, blocks with empty ids — there the property is decided by the Lean trace monitor on the implementation's trace plus the correspondence.",
+        "level_text": "Props/C01: push_pop_consumer_holds_one_chain — the consumer of the statement, literally (pushes on New, pops on Undo, ignores every other event): fed the events of any history of blocks of one consistent block tree by a forkable that knows its LIB, it never sees a New that does not extend its tip nor an Undo that is not its tip, and at every moment holds one parent-linked chain rooted at the starting LIB (derived from the next theorem through Lemmas/StackConsumer.follows_run). history_discipline_consistent — for every history (any length, order, duplicates, gaps, forks, orphans, blocks below the LIB or arriving before their parents) of blocks drawn from one consistent block tree (UOK: ids identify blocks, non-empty ids, heights grow along parent links) whose LIB declarations resolve to stored ancestors (LibHistOK), fed to a forkable that knows its LIB (Inv; init_inv / init_inv2 for an exclusive starting LIB), the delivered events drive a push/pop consumer (New must name the tip or the LIB as parent, Undo must be the tip, Irreversible must be the oldest pending block) without ever failing and leave it exactly on the chain from the LIB to the last block sent. The hypotheses are on the input only; the proof is an induction over the history with the invariants Inv (consumer's chain = path LIB -> last sent block, heights, cache) and Inv2 (every sent stored block has a final, a sent stored, or a gone-for-good parent — which is what makes 'a purged block never comes back' provable). history_discipline_inclusive — the same for a forkable started on an inclusive LIB: the first block delivered is either the starting block itself (New and Irreversible at once, inclusive_root_step) or a block the consumer resting on the starting LIB accepts, and the discipline holds from then on. history_discipline_discovery — the same for a hold-until-LIB forkable that discovers its LIB (the configuration ForkableHub builds): nothing is delivered until a block's declared LIB resolves to a stored ancestor L; that block delivers the chain from L (exclusive) to itself as New and announces L itself (discovery_step / DiscoveryStep give the exact shape, also for a block that is its own LIB), after which the stream follows the discipline as for a known LIB. step_discipline / history_discipline are the same with the state-side hypothesis SentClosed instead of the universe. handler_error_returned_at_once (no hypothesis at all): with a handler failing on call k the handler saw exactly the first k+1 events of the failure-free run and the error is returned. refeed_delivers_nothing / below_lib_dropped: a stored block or a block below the LIB changes nothing. Every hypothesis has a Boolean check with a kernel-checked soundness theorem (stepOKb_sound, uokB_sound, libHistB_sound); a history with a fork, an undo/redo switch, a duplicate, an orphan and two LIB moves is discharged end to end by kernel evaluation, and the driver reports for every run how many steps the theorems cover (thm.* counters). Outside the theorems: LIB discovery without hold-until-LIB, handlers that filter out New/Undo/Irreversible, malformed LIB declarations, blocks with empty ids — there the property is decided by the Lean trace monitor on the implementation's trace plus the correspondence.",
         "level_note": LEVEL_NOTE_COMMON,
         "explanation": "theorems for all inputs within the stated hypotheses; the model-implementation tie and the configurations outside the hypotheses are decided by differential execution + Lean trace monitors on the implementation's own trace (3000/40000 generated histories per run)",
     },
